@@ -385,7 +385,7 @@ func c16Dispatch(c *Ctx) {
 		}
 	}
 	gAny, n := core.CondEdges(fn, protoEq("https", "tls", "quic"))
-	off, ns := core.UnguardedSinks(fn, core.IsCallTo(false, "dnsforward.clientServerName", "dnsforward.clientIDFromClientServerName"), gAny)
+	off, _, ns := core.GuardedDeep(fn, protoEq("https", "tls", "quic"), core.IsCallTo(false, "dnsforward.clientServerName", "dnsforward.clientIDFromClientServerName"), 2)
 	r.Check(n >= 3 && ns > 0 && len(off) == 0, "C16-D3", "server-name-only-for-encrypted-protos", p.FnPos(fn),
 		"the server-name extractor runs only for HTTPS, TLS and QUIC", "the server-name ClientID extractor can run for a plain or DNSCrypt request", traceOf(p, off)...)
 	gH, nH := core.CondEdges(fn, protoEq("https"))
@@ -471,7 +471,13 @@ func c16RawNames(c *Ctx) {
 		return ""
 	}
 	n := 0
-	for _, call := range core.CallsTo(fn, "dnsforward.clientIDFromClientServerName") {
+	d7calls := core.CallsTo(fn, "dnsforward.clientIDFromClientServerName")
+	for h := range core.StaticReach(fn, 2) {
+		if h != fn && core.PkgOf(h) == "dnsforward" && core.FuncKey(h) != "dnsforward.clientIDFromClientServerName" {
+			d7calls = append(d7calls, core.CallsTo(h, "dnsforward.clientIDFromClientServerName")...)
+		}
+	}
+	for _, call := range d7calls {
 		for i := 1; i < 2 && i < len(call.Common.Args); i++ { // the client's name; the configured one is the operator's own
 			n++
 			var bad []string
